@@ -67,6 +67,10 @@ CLAIMED = {
             'Not a deadlock-freedom proof. Every thread role of a 3-session scenario (host starting a session, the session thread, a session executing <send> with a solver-chosen target, the timer thread firing a delayed send, host send, child cancel, executor shutdown) is executed symbolically on the real code; each acquisition records the locks already held; z3 decides whether two acquisitions by different threads close a cycle without a common gate lock (GoodLock). unsat on all explored role paths = no lock-order inversion among them. Interleavings of real OS threads are not explored by this family of technique.',
             'Trusted: the mutex model (lock/try_lock/guard drop from the drop-elaborated MIR), sequential composition of roles. One inversion (executor state vs I/O processor) was predicted, reproduced natively by harness/src/bin/stress_c17.rs and repaired (f2d726f).',
             'DESIGN.md §4 C17'),
+    'C09': ('model_checking', 'symbolic execution of rustc MIR (mirsym) + z3: In() over all configurations, read-only system variables, _event fields, binding order',
+            'Bounded symbolic model checking: In(id) (rfsm-expression action and null-datamodel condition) equals membership for every subset of states and every queried state; assignments (via <assign> and via script) to _sessionid, _name, _ioprocessors, _event and the standard fields of _event fail, raise error.execution and leave the value intact while a declared location changes; the seven _event fields equal the event for all presence combinations / payload shapes / values; with early binding every state is initialised with values before any content, with late binding exactly at first entry before onentry and never again (real Fsm::interpret with re-entry).',
+            'Trusted: mirsym + environment models (hash-map iteration pinned to insertion order in the read-only/event harnesses, stated in the evidence). Outside: ECMAScript datamodel. One defect repaired (9f30b1b).',
+            'DESIGN.md §4 C09'),
 }
 NA_REASON = {}
 
